@@ -22,13 +22,18 @@
     `skip_fuel_never_binds`, `file_reader_fuel_never_binds`, `block_reader_fuel_never_binds`): above `2·|input| + 2` the result
     does not depend on the fuel.  Every loop iteration consumes a byte of input or closes a nesting level that a consumed
     byte opened, so the iterations of all modelled loops together are bounded by a linear function of the input length, and
-    every exception the model reports on a hostile input is a genuine one, not an artefact of the fuel.
+    every exception the model reports on a hostile input is a genuine one, not an artefact of the fuel;
+  * memory proportional to the input, for EVERY byte string: whatever the length fields of a hostile input announce, the value
+    the reader materialises – one unit per scalar, string byte, list element and record member – plus the input left over is
+    at most the input (`value_size_bounded_by_input`, `file_values_bounded_by_input`): a string of n bytes was paid for with n
+    input bytes, a list of n elements with at least n.
 -/
 import CdnsVerif.Model.Render
 import CdnsVerif.Props.C05
 import CdnsVerif.Props.C07
 import CdnsVerif.Props.C17
 import CdnsVerif.Proofs.Fuel
+import CdnsVerif.Proofs.Alloc
 import CdnsVerif.Model.File
 
 namespace CdnsVerif.Props.C03
@@ -165,5 +170,46 @@ def endsWithEnd {α : Type} : Except Err α → Bool
   | _ => false
 example : endsWithEnd ((readVal (2 * 10 + 2) (.arr (.uint 8))).run [0x9b, 255, 255, 255, 255, 255, 255, 255, 255, 1]) = true := by decide
 example : endsWithEnd ((readVal (2 * 4 + 2) (.arr (.arr (.arr (.uint 8))))).run [0x9f, 0x9f, 0x9f, 7]) = true := by decide
+
+/-! ### what the reader materialises is bounded by what it consumed, on every input -/
+
+open CdnsVerif.Proofs.Alloc in
+/-- **Any schema without a repeated key, any bytes, any fuel**: the size of the value read plus the bytes left over is at most the
+    size of the input. -/
+theorem value_size_bounded_by_input (k : Kind) (hk : kindOk k = true) (f : Nat) (bs r : Bytes) (v : Val)
+    (h : (readVal f k).run bs = .ok (v, r)) : vsize v + r.length ≤ bs.length :=
+  (al_all f).1 k bs r v hk h
+
+open CdnsVerif.Proofs.Alloc CdnsVerif.Model.Structs in
+/-- the hypothesis holds for the two trees of the file: no struct of the preamble or block tree lists a key twice, at any depth -/
+theorem file_schemas_ok : kindOk filePreamble = true ∧ kindOk (.arr block) = true := by decide +kernel
+
+open CdnsVerif.Proofs.Alloc CdnsVerif.Model.File CdnsVerif.Model.Structs in
+/-- **A whole file, any bytes**: preamble and block values together never exceed the input. -/
+theorem file_values_bounded_by_input (f : Nat) (bs r : Bytes) (pv bv : Val) (h : (readFile f).run bs = .ok ((pv, bv), r)) :
+    vsize pv + vsize bv + r.length ≤ bs.length := by
+  unfold readFile at h
+  obtain ⟨⟨len, indef⟩, r1, h1, h2⟩ := bind_ok h
+  have hr1 := run_le _ _ _ _ h1
+  simp only at h2
+  split at h2
+  · simp at h2
+  · obtain ⟨t, r2, h3, h4⟩ := bind_ok h2
+    have hr2 := run_le _ _ _ _ h3
+    split at h4
+    · simp at h4
+    · obtain ⟨pv', r3, h5, h6⟩ := bind_ok h4
+      have hp := value_size_bounded_by_input _ file_schemas_ok.1 f r2 r3 pv' h5
+      obtain ⟨bv', r4, h7, h8⟩ := bind_ok h6
+      have hb := value_size_bounded_by_input _ file_schemas_ok.2 f r3 r4 bv' h7
+      split at h8
+      · obtain ⟨_, r5, h9, h10⟩ := bind_ok h8
+        have hr5 := run_le _ _ _ _ h9
+        obtain ⟨he, rfl⟩ := pure_ok h10
+        cases he
+        omega
+      · obtain ⟨he, rfl⟩ := pure_ok h8
+        cases he
+        omega
 
 end CdnsVerif.Props.C03
